@@ -450,7 +450,6 @@ def holdsC07 (prio : List HookDef) (wet : Bool) (trees : List (List Meta)) (tick
       -- a new kill cycle: what happened before the last final return does not gate anything any more
       st := { st with gate := none, attemptGate := none, failedAttempt := false }
     st := { st with spared := [] }
-    if t.sigBad then st := st.bad "signal_is_sigkill"
     for s in t.evs do
       match s.ev with
       | .fire hook cg path inv ctxDl =>
